@@ -11,6 +11,11 @@ package main
 //   introduced <addr> <gnetID> <mirror> <listenPort>
 //   remove <addr> <gnetID>
 //   modify <addr> <gnetID> <height> <mirror|-> <listenPort|->
+//   evpending <addr> | evconnect <addr> <gnetID> <solicited 0|1> | evintro <addr> <gnetID> <mirror> <listenPort>
+//   evdisconnect <addr> <gnetID> | evfail <addr>
+//       the same transitions reached the way the daemon reaches them: Daemon.handleEvent(ConnectEvent /
+//       DisconnectEvent / ConnectFailureEvent) and connectionIntroduced on a Daemon reduced to its connections table,
+//       a bare pex and an offline pool (src/daemon/events_verif.go); output "ev" + dump
 // (<addr> "~" = empty string)
 //
 // output: <ok|err NAME>|C:addr,state,outgoing,mirror,listenPort,gnetID,height;…|I:ip=n;…|G:id=addr;…
@@ -41,7 +46,14 @@ var errNames = map[error]string{
 	iputil.ErrInvalidPort:                 "ErrInvalidPort",
 }
 
-var conns = daemon.NewConnections()
+var evs = func() *daemon.VerifEvents {
+	e, err := daemon.VerifNewEvents()
+	if err != nil {
+		panic("harness: " + err.Error())
+	}
+	return e
+}()
+var conns = evs.Connections()
 
 func un(a string) string {
 	if a == "~" {
@@ -174,10 +186,25 @@ func c24Exec(op string) (out string) {
 	}()
 	f := strings.Split(op, " ")
 	if f[0] == "reset" {
-		conns = daemon.NewConnections()
+		evs.Reset()
+		conns = evs.Connections()
 		return "ok" + dump(conns)
 	}
-	return apply(conns, f) + dump(conns)
+	switch f[0] {
+	case "evpending":
+		_ = evs.Pending(un(f[1])) //nolint:errcheck
+	case "evconnect":
+		evs.Connect(un(f[1]), PU64(f[2]), f[3] == "1")
+	case "evintro":
+		_ = evs.Introduce(un(f[1]), PU64(f[2]), uint32(PU64(f[3])), uint16(PU64(f[4]))) //nolint:errcheck
+	case "evdisconnect":
+		evs.Disconnect(un(f[1]), PU64(f[2]))
+	case "evfail":
+		evs.ConnectFailure(un(f[1]))
+	default:
+		return apply(conns, f) + dump(conns)
+	}
+	return "ev" + dump(conns)
 }
 
 // ---------------------------------------------------------------------------------------------
@@ -197,10 +224,34 @@ type gen struct {
 	out    func(string)
 	priv   *daemon.Connections // private instance of the real code, used only to steer the generator
 	nextID uint64
+	viaEv  int // percentage of the transitions of this history that are driven through the daemon's event handlers
+}
+
+// asEvent: the event-handler form of a direct transition (same effect on the connections table)
+func (g *gen) asEvent(op string) string {
+	f := strings.Split(op, " ")
+	switch f[0] {
+	case "pending":
+		return "evpending " + f[1]
+	case "connected":
+		return "evconnect " + f[1] + " " + f[2] + " " + strconv.Itoa(g.r.Intn(2))
+	case "introduced":
+		return "evintro " + strings.Join(f[1:], " ")
+	case "remove":
+		if f[2] == "0" {
+			return "evfail " + f[1]
+		}
+		return "evdisconnect " + f[1] + " " + f[2]
+	}
+	return op
 }
 
 func (g *gen) emit(op string) {
-	g.out(op)
+	if g.viaEv > 0 && g.r.Chance(g.viaEv) {
+		g.out(g.asEvent(op))
+	} else {
+		g.out(op)
+	}
 	func() {
 		defer func() { recover() }() //nolint:errcheck
 		apply(g.priv, strings.Split(op, " "))
@@ -398,6 +449,7 @@ func c24Gen(r *Rng, tier string, emit func(string)) {
 	}
 	for i := 0; i < nGuided; i++ {
 		g.reset()
+		g.viaEv = []int{0, 0, 40, 100}[i%4]
 		n := r.Range(1, 30)
 		for j := 0; j < n; j++ {
 			g.guided()
@@ -411,6 +463,7 @@ func c24Gen(r *Rng, tier string, emit func(string)) {
 	}
 	for i := 0; i < nWild; i++ {
 		g.reset()
+		g.viaEv = []int{0, 50}[i%2]
 		n := r.Range(1, 30)
 		for j := 0; j < n; j++ {
 			g.wild(true)
